@@ -15,7 +15,6 @@ import multiprocessing
 import os
 import random
 import shutil
-import socket
 import tempfile
 import threading
 import time
@@ -50,7 +49,7 @@ def trial_universe(dim, maxc, infmode):
 
 INSTANCES = {   # name -> (Dim, MaxN, MaxC, InfMode)   == specs/BestMC_<name>.cfg
     "q1": (1, 3, 1, 2), "q2": (2, 2, 1, 2), "q3": (3, 2, 0, 1),
-    "t1": (1, 4, 2, 2), "t2": (2, 3, 1, 2), "t3": (3, 2, 1, 2), "t4": (4, 2, 1, 1),
+    "t1": (1, 4, 0, 2), "t2": (2, 3, 0, 2), "t3": (3, 2, 1, 2), "t4": (4, 2, 0, 1),
 }
 
 
@@ -169,23 +168,40 @@ class Backends:
             from optuna.storages._grpc.server import make_server
             import grpc
 
-            s = socket.socket(socket.AF_INET, socket.SOCK_STREAM)
-            s.bind(("localhost", 0))
-            port = s.getsockname()[1]
-            s.close()
-            server = make_server(InMemoryStorage(), "localhost", port)
-            th = threading.Thread(target=server.start, daemon=True)
-            th.start()
-            st = GrpcStorageProxy(host="localhost", port=port)
-            t0 = time.time()
-            while True:
+            # One server per worker process over its own InMemoryStorage.  gRPC binds with SO_REUSEPORT, so two
+            # servers could silently share a port: the port is derived from the (unique) pid and the proxy is only
+            # used after a probe study created through it is seen in OUR backing storage.
+            st = None
+            for attempt in range(8):
+                port = 21000 + (os.getpid() + attempt * 7919) % 20000
+                backing = InMemoryStorage()
                 try:
-                    st.get_all_studies()
+                    server = make_server(backing, "localhost", port)
+                except RuntimeError:
+                    continue
+                th = threading.Thread(target=server.start, daemon=True)
+                th.start()
+                proxy = GrpcStorageProxy(host="localhost", port=port)
+                t0 = time.time()
+                while True:
+                    try:
+                        proxy.get_all_studies()
+                        break
+                    except grpc.RpcError:
+                        if time.time() - t0 > 30:
+                            raise
+                        time.sleep(0.05)
+                probe = f"probe-{os.getpid()}-{attempt}-{time.time_ns()}"
+                proxy.create_new_study([optuna.study.StudyDirection.MINIMIZE], probe)
+                try:
+                    backing.get_study_id_from_name(probe)
+                    st = proxy
                     break
-                except grpc.RpcError:
-                    if time.time() - t0 > 30:
-                        raise
-                    time.sleep(0.05)
+                except KeyError:
+                    proxy.close()
+                    server.stop(None)
+            if st is None:
+                raise tlc.MachineryError("could not start a private gRPC storage server")
             self.servers.append((server, th, st))
         else:
             raise tlc.MachineryError(f"unknown backend {kind}")
@@ -298,9 +314,9 @@ def _worker_init(root):
     os.environ["GRPC_VERBOSITY"] = "NONE"
     common.use_repo()
     _BK = Backends(root)
-    import atexit
+    from multiprocessing import util
 
-    atexit.register(_BK.close)
+    util.Finalize(_BK, _BK.close, exitpriority=10)      # runs when the worker process exits
 
 
 def _work(cases):
@@ -377,7 +393,7 @@ def plan_cases(ctx):
     counts = {}
     executed = {}
     insts = ["q1", "q2", "q3"] if quick else ["q1", "q2", "q3", "t1", "t2", "t3", "t4"]
-    share = {"q1": 1.0, "q2": 1.0, "q3": 0.25, "t1": 0.25, "t2": 0.1, "t3": 0.1, "t4": 0.02}
+    share = {"q1": 1.0, "q2": 1.0, "q3": 0.25, "t1": 0.5, "t2": 0.25, "t3": 0.1, "t4": 0.1}
     tell_share = {"q1": 0.25, "q2": 0.15, "q3": 0.1, "t1": 0.2, "t2": 0.1, "t3": 0.1, "t4": 0.1}
     if quick:
         other = {"q1": {"journal": 1500, "grpc": 200, "sqlite": 450, "cached": 60},
@@ -385,13 +401,13 @@ def plan_cases(ctx):
                  "q3": {"journal": 300, "grpc": 40, "sqlite": 30, "cached": 10}}
         n_rand = {"inmem": 4000, "journal": 1000, "grpc": 150, "sqlite": 180, "cached": 40}
     else:
-        other = {"q1": {"journal": 8000, "grpc": 2500, "sqlite": 5000, "cached": 1000},
-                 "t1": {"journal": 8000, "grpc": 2500, "sqlite": 5000, "cached": 1000},
-                 "q2": {"journal": 4000, "grpc": 1000, "sqlite": 1000, "cached": 300},
-                 "t2": {"journal": 4000, "grpc": 1000, "sqlite": 1000, "cached": 300},
-                 "t3": {"journal": 2000, "grpc": 500, "sqlite": 500, "cached": 100},
-                 "t4": {"journal": 2000, "grpc": 500, "sqlite": 500, "cached": 100}}
-        n_rand = {"inmem": 60000, "journal": 12000, "grpc": 3000, "sqlite": 4000, "cached": 1000}
+        other = {"q1": {"journal": 6000, "grpc": 1200, "sqlite": 2500, "cached": 400},
+                 "t1": {"journal": 6000, "grpc": 1200, "sqlite": 2500, "cached": 400},
+                 "q2": {"journal": 3000, "grpc": 500, "sqlite": 400, "cached": 100},
+                 "t2": {"journal": 3000, "grpc": 500, "sqlite": 400, "cached": 100},
+                 "t3": {"journal": 2000, "grpc": 300, "sqlite": 200, "cached": 50},
+                 "t4": {"journal": 2000, "grpc": 300, "sqlite": 200, "cached": 50}}
+        n_rand = {"inmem": 60000, "journal": 10000, "grpc": 1500, "sqlite": 2000, "cached": 400}
     orders = ["num", "asc", "desc", "rev", "rand"]
     for name in insts:
         n = 0
@@ -569,9 +585,13 @@ def run(ctx):
     for c in cfgs:
         r = results[c]
         ctx.model(r, "BestMC_" + c)
-        if r.coverage["Judge"][0] != instance_size(c) or (c in counts and counts[c] != instance_size(c)):
-            raise tlc.MachineryError(f"instance {c}: spec has {r.coverage['Judge'][0]} inputs, harness enumerates "
-                                     f"{instance_size(c)} / generated {counts.get(c)}")
+        # distinct states = 1 (empty) + histories reached by AddTrial + one judged state per (history, directions);
+        # (the per-action coverage numbers are not used: TLC reprints them every minute and they add up)
+        dim = INSTANCES[c][0]
+        spec_inputs = r.distinct * 2 ** dim // (1 + 2 ** dim)
+        if r.distinct % (1 + 2 ** dim) or spec_inputs != instance_size(c) or counts.get(c) != instance_size(c):
+            raise tlc.MachineryError(f"instance {c}: spec has {spec_inputs} inputs ({r.distinct} states), harness "
+                                     f"enumerates {instance_size(c)} / generated {counts.get(c)}")
     ctx.exhaustive = True
     ctx.notes["exhaustive_instances"] = {c: {"inputs": instance_size(c), "equals_spec_cardinality": True,
                                              "executed_in_memory_via_add_trial": executed.get(c, 0)} for c in counts}
